@@ -161,18 +161,25 @@ func runList(l []raceOp) []string {
 			b := []byte(sharedBufs[o.Size]) // no copy: read-only input shared between goroutines
 			if len(b) > 2 && b[0] == 0xfe {
 				// the stream as a whole is framed by the model; each command is decoded from its own sub-slice of the shared buffer
+				// (all commands are decoded before anything is formatted: fmt's buffer pool would order this goroutine
+				// after another one and hide an unsynchronised access of the later commands from the detector)
 				up := b[1] == 1
 				rest := b[2:]
+				var cmds []lorawan.MACCommand
+				var errs []error
 				for len(rest) > 0 {
 					n := 1 + ref.PayloadLen(up, rest[0], nil)
 					if n > len(rest) {
 						break
 					}
 					var m lorawan.MACCommand
-					err := m.UnmarshalBinary(up, rest[:n])
-					enc, _ := m.MarshalBinary()
-					out = append(out, fmt.Sprintf("shared-cmd %v %x", err, enc))
+					errs = append(errs, m.UnmarshalBinary(up, rest[:n]))
+					cmds = append(cmds, m)
 					rest = rest[n:]
+				}
+				for i := range cmds {
+					enc, _ := cmds[i].MarshalBinary()
+					out = append(out, fmt.Sprintf("shared-cmd %v %x", errs[i], enc))
 				}
 				continue
 			}
@@ -243,6 +250,32 @@ func checkRace(c raceCase) evid.Outcome {
 		sharedSnapshot[i] = b.String()
 	}
 	defer func() { sharedBufs = nil }()
+	// every shared buffer first on its own: 4 goroutines released together decode it at once and do nothing else
+	// before, so that no two of them are ordered and a decoder that writes to its input is reported whatever the timing
+	// (inside the lists below, incidental synchronisation - fmt's pools, a loaded machine running the goroutines one
+	// after the other - can order two decodes of the same buffer)
+	for i := range c.Shared {
+		one := []raceOp{{Op: "shared", Size: i}}
+		var first [4][]string
+		var swg sync.WaitGroup
+		go4 := make(chan struct{})
+		for g := range first {
+			swg.Add(1)
+			go func(g int) {
+				defer swg.Done()
+				<-go4
+				first[g] = runList(one)
+			}(g)
+		}
+		close(go4)
+		swg.Wait()
+		alone := fmt.Sprint(runList(one))
+		for g := range first {
+			if fmt.Sprint(first[g]) != alone {
+				return evid.Fail("the read-only buffer %s decoded by 4 goroutines at once: goroutine %d got %v, decoded alone it gives %s", c.Shared[i], g, first[g], alone)
+			}
+		}
+	}
 	results := make([][]string, len(c.Lists))
 	var wg sync.WaitGroup
 	start := make(chan struct{})
